@@ -532,6 +532,24 @@ def asyncio_wait_for(ip, args, kwargs, node):
     return VCoro(VBuiltin("wait_for.run", run), [], {}, node)
 
 
+def asyncio_create_task(ip, args, kwargs, node):
+    """create_task(coro): the coroutine starts running concurrently.  Its observable effect at spawn time is
+    given by the sidecar contract `spawn:<Class.method>`; without one the engine stops."""
+    co = args[0]
+    if isinstance(co, VCoro) and isinstance(co.fn, VMethod):
+        fi = co.fn.finfo
+        short = f"{fi.cls.name if fi is not None and fi.cls is not None else co.fn.cls}.{co.fn.name}"
+        sc = ip.db.lookup("spawn:" + short)
+        if sc is None:
+            raise Unsupported(f"create_task({short}(...)) needs a sidecar contract 'spawn:{short}'")
+        if fi is not None and sc.params is None:
+            am = ip.argmap_for(fi, sc, co.fn.obj, co.args, co.kwargs)
+        else:
+            am = ip.argmap_for(None, sc, co.fn.obj, co.args, co.kwargs)
+        return ip.apply_contract(sc, am, node)
+    raise Unsupported(f"create_task of {co!r}")
+
+
 # ------------------------------------------------------------------ exceptions
 def make_exc_ctor(name):
     def ctor(ip, args, kwargs, node):
@@ -558,7 +576,11 @@ def build_lib() -> dict:
     })
     lib["time"] = VModule("time", {"time": VBuiltin("time.time", time_time), "time_ns": VBuiltin("time.time_ns", time_time_ns)})
     lib["asyncio"] = VModule("asyncio", {n: VContractFn("asyncio." + n) for n in
-                                         ("gather", "sleep", "wait", "create_task", "get_running_loop")})
+                                         ("gather", "sleep", "wait", "get_running_loop")})
+    lib["asyncio"].attrs["create_task"] = VBuiltin("asyncio.create_task", asyncio_create_task)
+    lib["create_task"] = lib["asyncio"].attrs["create_task"]
+    for n in ("FIRST_COMPLETED", "ALL_COMPLETED", "FIRST_EXCEPTION"):
+        lib["asyncio"].attrs[n] = VStr(n)
     lib["asyncio"].attrs["wait_for"] = VBuiltin("asyncio.wait_for", asyncio_wait_for)
     for n in ("CancelledError", "TimeoutError", "QueueEmpty", "QueueFull"):
         lib["asyncio"].attrs[n] = VClass(n)
